@@ -3,6 +3,8 @@ package main
 import (
 	"flag"
 	"fmt"
+	"io"
+	"log"
 	"os"
 	"strconv"
 )
@@ -40,7 +42,10 @@ var runners = map[string]func(Config){
 	"C07": runC07,
 	"C09": runC09,
 	"C10": runC10,
+	"C11": runC11,
+	"C12": runC12,
 	"C13": runC13,
+	"C14": runC14,
 	"C15": runC15,
 	"C16": runC16,
 	"C17": runC17,
@@ -60,6 +65,7 @@ func main() {
 	flag.StringVar(&cfg.Replay, "replay", "", "replay file")
 	flag.StringVar(&cfg.Work, "work", "", "scratch directory (created and removed by the caller)")
 	flag.Parse()
+	log.SetOutput(io.Discard) // net/http chatter about deliberately broken scripted responses
 	// the library prints warnings ("skipping … unsupported node type") to os.Stderr
 	if null, err := os.OpenFile(os.DevNull, os.O_WRONLY, 0); err == nil && os.Getenv("VERIF_STDERR") == "" {
 		os.Stderr = null
